@@ -575,22 +575,67 @@ fn src_mate_family(cur: &mut Cursor, p: &mut RefPos) {
     if let Some(bk) = free_sq(cur, p, |s| !adjacent(s, k)) {
         p.b[bk as usize] = Some((them, Pc::K));
     }
-    // attackers near the king
-    let n = 1 + cur.below(4);
+    // attackers near the king; one case in five a lone minor piece (smothered / corner mates by king + knight or bishop)
+    let lone_minor = cur.chance(50);
+    let n = if lone_minor { 1 } else { 1 + cur.below(4) };
     for _ in 0..n {
-        let pc = cur.pick(&[Pc::Q, Pc::R, Pc::R, Pc::B, Pc::N, Pc::Q]);
-        let s = free_sq(cur, p, |s| (file_of(s) - file_of(k)).abs() <= 3 && (rank_of(s) - rank_of(k)).abs() <= 3);
+        let pc = if lone_minor { cur.pick(&[Pc::N, Pc::N, Pc::B]) } else { cur.pick(&[Pc::Q, Pc::R, Pc::R, Pc::B, Pc::N, Pc::Q]) };
+        // a lone minor is put where it gives check, if there is such a square
+        let checking: Vec<Sq> = if lone_minor {
+            (0..64u8)
+                .filter(|&s| {
+                    p.b[s as usize].is_none() && {
+                        let mut q = p.clone();
+                        q.b[s as usize] = Some((them, pc));
+                        q.reaches(s, k)
+                    }
+                })
+                .collect()
+        } else {
+            Vec::new()
+        };
+        let s = if !checking.is_empty() {
+            Some(checking[cur.below(checking.len())])
+        } else {
+            free_sq(cur, p, |s| (file_of(s) - file_of(k)).abs() <= 3 && (rank_of(s) - rank_of(k)).abs() <= 3)
+        };
         if let Some(s) = s {
             p.b[s as usize] = Some((them, pc));
         }
     }
     let n = cur.below(3);
     for _ in 0..n {
-        let c = if cur.bool() { Col::B } else { Col::W };
+        let c = if lone_minor || cur.bool() { Col::W } else { Col::B };
         let pc = cur.pick(&WEIGHTED);
         put_random(cur, p, (c, pc));
     }
     p.side = us;
+    // Two cases in five: step back to the position before the (possibly mating) check was given - one checking piece is
+    // taken back to a square it could have come from, and the other side is to move. The check or mate is then one move away,
+    // which is what check and mate marks of move texts and early-exit "has a reply" searches look at.
+    if cur.chance(100) {
+        let checkers: Vec<Sq> = p.attackers(k, them).into_iter().filter(|&c| !matches!(p.b[c as usize], Some((_, Pc::P | Pc::K)))).collect();
+        if !checkers.is_empty() {
+            let c = checkers[cur.below(checkers.len())];
+            let man = p.b[c as usize].unwrap();
+            let origins: Vec<Sq> = (0..64u8)
+                .filter(|&o| {
+                    p.b[o as usize].is_none() && {
+                        let mut q = p.clone();
+                        q.b[c as usize] = None;
+                        q.b[o as usize] = Some(man);
+                        q.reaches(o, c) && !q.reaches(o, k)
+                    }
+                })
+                .collect();
+            if !origins.is_empty() {
+                let o = origins[cur.below(origins.len())];
+                p.b[c as usize] = None;
+                p.b[o as usize] = Some(man);
+                p.side = them;
+            }
+        }
+    }
 }
 
 fn src_many_queens(cur: &mut Cursor, p: &mut RefPos) {
